@@ -25,7 +25,7 @@ import typing
 
 import z3
 
-from . import pysym
+from . import pysym, ref
 from .pysym import Bl, Call, Exc, Ite, KeySet, LD, LL, Ob, Tm, _const_key, _short
 
 JSONLIKE = (type(None), bool, int, float, str, list, dict)
@@ -327,7 +327,7 @@ def schema_view(cls):
     import typing_extensions
     from mashumaro.types import Alias
 
-    hints = typing_extensions.get_type_hints(cls, include_extras=True)
+    hints = ref.resolved_hints(cls)
     config = getattr(cls, "Config", None)
     cfg_aliases = getattr(config, "aliases", {}) or {}
     out = []
